@@ -263,7 +263,9 @@ func c15Build(c c15Config) *c15World {
 			if !c.FastDep {
 				ok = append(ok,
 					func(ctx flamego.Context) { ctx.Map(&c15Unmapped{}) },
-					func(u *c15Unmapped, ctx flamego.Context) { w.events = append(w.events, fmt.Sprintf("dependency-resolved:%v", u != nil)) })
+					func(u *c15Unmapped, ctx flamego.Context) {
+						w.events = append(w.events, fmt.Sprintf("dependency-resolved:%v", u != nil))
+					})
 			}
 		}
 		switch c.Style {
